@@ -56,8 +56,23 @@ def oracle_run(cfg):
         snap = {}
         for k in BIORT: snap[k] = [a.copy() for a in coeffs.biort(k)]
         for k in QSHIFT: snap[k] = [a.copy() for a in coeffs.qshift(k)]
+        L1 = ['farras'] + list(QSHIFT)          # names level1() accepts (the four-DWT implementation's level-1 tables)
+        for k in L1: snap['level1/' + k] = [np.array(a, copy=True) for a in coeffs.level1(k)]
         x = torch.randn(1, 1, 16, 16, dtype=torch.float64)
         from pytorch_wavelets.scatternet import ScatLayer, ScatLayerj2
+        # the second ("four DWTs") implementation reads the same cache: constructing and using it is a use of the tables too
+        import pytorch_wavelets.dtcwt.lowlevel2 as ll2
+        for b1 in ('farras', 'qshift_b'):
+            for ctor in (ll2.DTCWTForward2, ll2.DTCWTInverse2):
+                for rep in range(2):
+                    try:
+                        ctor(biort=b1, qshift='qshift_a')
+                    except Exception:
+                        pass
+        try:
+            ll2.DTCWTForward2(J=2)(torch.randn(1, 1, 16, 16))
+        except Exception:
+            pass
         for b in BIORT:
             for q in QSHIFT:
                 # every consumer of every shipped table: the plain families through the DTCWT modules, the band-pass ones through the scattering layers
@@ -74,6 +89,9 @@ def oracle_run(cfg):
         for k in QSHIFT:
             if not all(np.array_equal(a, b) for a, b in zip(snap[k], coeffs.qshift(k))):
                 return dict(detail='cached table %s changed after constructing/using transforms' % k)
+        for k in L1:
+            if not all(np.array_equal(a, b) for a, b in zip(snap['level1/' + k], coeffs.level1(k))):
+                return dict(detail='level-1 table %s changed after constructing/using transforms (lowlevel2 included)' % k)
         return None
     load = coeffs.biort if cfg['kind'] == 'biort' else coeffs.qshift
     t = [np.asarray(a).ravel() for a in load(n)]
